@@ -169,6 +169,7 @@ static void release_all(void) {
   for (j = 1; j <= MAXI; j++) if (its[j]) { ldb_iter_destroy(its[j]); its[j] = NULL; EV("iter_free", "\"id\":%d", j); }
   for (j = 1; j <= MAXS; j++) if (snaps[j]) { ldb_release(db, snaps[j]); snaps[j] = NULL; EV("rel", "\"id\":%d", j); }
 }
+static int g_raw_reopen = 0;
 static int do_reopen(void) {
   int rc;
   release_all();
@@ -180,7 +181,7 @@ static int do_reopen(void) {
   rc = ldb_open(dbdir, &O.o, &db);
   EV("reopen", "\"rc\":%d", rc);
   if (rc != 0) return rc;
-  quiesce();
+  if (!g_raw_reopen) quiesce();     /* quiesce() itself asks for background work; "reopenraw" leaves that to ldb_open */
   return 0;
 }
 /* keep the immutable memtable alive while reads / iterators are created */
@@ -242,6 +243,7 @@ static int run_script(const char *path) {
       rc = ldb_del(db, &key, NULL); EV("del", "\"k\":%d,\"rc\":%d", a, rc);
     } else if (!strcmp(op, "flush")) { do_flush(); quiesce(); }
     else if (!strcmp(op, "reopen")) { if (do_reopen() != 0) { fclose(f); return 4; } }
+    else if (!strcmp(op, "reopenraw")) { int r; g_raw_reopen = 1; r = do_reopen(); g_raw_reopen = 0; if (r != 0) { fclose(f); return 4; } }
     else if (!strcmp(op, "compact")) {
       ldb_slice_t bk, ek;
       if (b >= 0) bk = d_key(b);
@@ -277,6 +279,7 @@ static int run_script(const char *path) {
       scan_one(0, 0);
     } else if (!strcmp(op, "scan")) { for (s = 0; s <= MAXS; s++) { if (s && !snaps[s]) continue; scan_one(s, 0); scan_one(s, 1); } }
     else if (!strcmp(op, "quiesce")) quiesce();
+    else if (!strcmp(op, "wbuf")) { O.o.write_buffer_size = (size_t)a; EV("note", "\"wbuf\":%d", a); }   /* takes effect at the next open */
   }
   fclose(f);
   return 0;
